@@ -183,7 +183,21 @@ Checks2D(qx, qy, dqx, dqy, acc, qxc, qyc) ==
                                            \/ FNear(cx, FNeg(qx[j]), "0.0", tolc) /\ FNear(cy, FNeg(qy[j]), "0.0", tolc),
                           "window-centred-on-pixel",
                           LAMBDA j : <<"pixel", qx[j], qy[j], "centre of its sampling points",
-                                       FDiv(FSum(RColumn(qxc, j, nq, nb)), FFromInt(nb)), FDiv(FSum(RColumn(qyc, j, nq, nb)), FFromInt(nb))>>))
+                                       FDiv(FSum(RColumn(qxc, j, nq, nb)), FFromInt(nb)), FDiv(FSum(RColumn(qyc, j, nq, nb)), FFromInt(nb))>>)
+             \* ... and reaches as far across the q direction as the tangential width says (between the centre of the
+             \* last ring and 3 sigma), not as far as the radial width
+             \o RowClause(nq, LAMBDA j : LET xs == RColumn(qxc, j, nq, nb)
+                                            ys == RColumn(qyc, j, nq, nb)
+                                            cx == FDiv(FSum(xs), FFromInt(nb))
+                                            cy == FDiv(FSum(ys), FFromInt(nb))
+                                            qn == qabs(j)
+                                            perp == [k \in 1..nb |-> FAbs(FDiv(FSub(FMul(FSub(ys[k], cy), qx[j]), FMul(FSub(xs[k], cx), qy[j])), qn))]
+                                            sgt == FMax(dqy[j], "1e-10")
+                                        IN FLt(Zero, qn) =>
+                                           /\ FLeq(FDiv(FMul(reach, sgt), "1.05"), VMax(perp))
+                                           /\ FLeq(VMax(perp), FMul(FMul("3.0", sgt), "1.05")),
+                          "tangential-extent",
+                          LAMBDA j : <<"pixel", qx[j], qy[j], "tangential width", dqy[j], "radial width", dqx[j]>>))
 
 ApplyRes2D(e) ==
     LET nq == Len(e.qx)
